@@ -12,13 +12,21 @@
                           (`returns_fresh_observe`) any observation of the instance / class.
   * `retained_fresh_observe` — input side: if every site is copied, no script started from the caller's
                           arguments changes any observation of what the operation built (the new instance's payload).
-  * `tables_ok`         — every row of today's table is safe, out of the statement's scope, or a listed finding.
-  * `C19_statement`     — the full statement (false today: `C19_statement_fails_today`);
-    `C19_partial`       — the statement for declarations that avoid exactly the listed finding rows;
+  * `setattr_separation` — assignment: the stored value AND the rest of the instance are out of the caller's reach.
+  * `tables_ok`         — every row of today's table is safe, out of the statement's scope, or a listed finding
+                          (none is listed today: `only_listed_rows_unsafe_today`).
+  * `C19_statement`     — the full statement over ALL sites (also sites today's table has no row for: not claimed);
+    `C19_partial` / `C19_today` — the statement for declarations all of whose sites are admitted (known to the table,
+                          in scope, not a listed finding row); for a multi-field wrapper: the sites of ALL its options.
     `unsafe_rows_have_counterexamples` — for EVERY unsafe in-scope row of the table a kernel-checked history
-                          (operation, one poke, observation differs); `anyOf_misfit_hands_out_stored` is one of them
-                          written out; `oneOf_keeps_a_copy_today`: a former one, now positive.  `fixed_rows_*`, `fast_serialization_fresh_today`: the rows repaired by
-                          typedpy commits 5e8a8ad / d7f6fe4 now carry positive theorems.
+                          (operation, one poke, observation differs): none today, any that returns gets one.
+  * `fixed_rows_*`, `fast_serialization_fresh_today`, `oneOf_keeps_a_copy_today`, `oneOf_allOf_fresh_today`,
+    `anyOf_serialize_picks_the_fitting_option_today`, `oneOf_copies_tuple_elements_today` — the rows repaired in
+                          typedpy (5e8a8ad, d7f6fe4, c0c3c23, 89fd84a, 2fb1f4d, ab026bd) carry positive theorems.
+  * `immutable_owner_holds`, `immutable_class_holds` — immutable owners under ANY rows of the fields below.
+  * `firstFit_spec`, `fixed_pick_spec`, `transfer_sites` — the option choice of multi-field wrappers; the walk consults
+                          the table exactly at `sitesOf`.
+  * `api_covered`, `api_rows_probed`, `api_ops_in_table` — every public entry point of typedpy is accounted for.
 -/
 import TypedpyModel.Lemmas.Alias
 import TypedpyModel.Spec.AliasScope
